@@ -28,11 +28,14 @@ CHECKS = {
             'IsData, SerOK (relational serialisation semantics), x2 = x, d2 = d up to set order',
             'Exhaustive within the grammar bound; the serialised form is checked against the relational semantics SerOK of '
             'PaneSem, the re-parse against the image, the re-serialisation up to set ordering, only for values whose image '
-            'the semantics fixes (verdict A).', 'section 7 C05'),
+            'the semantics fixes (verdict A). Includes the shipped helper types pane.types.Range / ValueOrList (RangeHook, vol), '
+            'method spellings (x.into_data()), and a seeded random stage.', 'section 7 C05'),
     'C06': ('TLC-enumerated cases: convert(x, T) on the converted value, on an equal natively rebuilt object, and '
             'convert(convert(v)); TLC compares with the image of the semantics under Python equality',
             'Exhaustive within the grammar bound; x ranges over images produced by conversion and over equal objects rebuilt '
-            'with ordinary Python constructors (Fraction, Decimal, date, set, deque, enum members, dataclass instances ...).',
+            'with ordinary Python constructors (Fraction, Decimal, date, set, deque, enum members, dataclass instances ...); '
+            'types that do not read their own serialised form (externally/adjacently tagged unions anywhere inside) are outside, '
+            'as the statement says; shipped helper types and Cls.from_obj included; seeded random stage.',
             'section 7 C06'),
     'C09': ('TLC-enumerated cases; deep identity+content snapshot of the argument before/after from_data; event validated by '
             'the TLC trace spec', 'Exhaustive within the grammar bound, both verdicts; the snapshot records the identity and '
@@ -79,7 +82,10 @@ CHECKS = {
             'find the id-reuse counterexample for the unpinned design (cross-check that the model understands the defect). '
             'Code level: histories with real del/gc and address reuse, every completed lookup probed behaviourally and judged by '
             'the history-free semantics; LRU: after every step the recency list, full flag, call count and results of the real '
-            'object are compared with the model step function.', 'section 7 C10'),
+            'object are compared with the model step function. The registry of global handlers is state of the model too (reg, '
+            'action Register, three designs): TLC must refute a cache that ignores registrations and one that is emptied by them, '
+            'and accepts the registry size in the key; Register is replayed with register_converter_handler(); an inductive '
+            'invariant of the repaired design incl. the registry is discharged by Apalache for unbounded histories.', 'section 7 C10'),
     'C20': ('explicit TLA+ spec of the five styles (Canon) and a model of the shipped splitter/joiners (PaneRename.tla), TLC '
             'exhaustive over all identifiers in the bound; every enumerated name plus seeded random longer ones replayed through '
             'rename_field and class-level rename=, results validated by the TLC trace spec',
